@@ -2,7 +2,7 @@
 CHECK = {
     "pkg": ".", "files": ["root/fwref_test.go", "root/c19_test.go"], "run": "^TestC19",
     "quick": {"scale": 1, "shards": 1, "timeout": 600},
-    "thorough": {"scale": 12, "shards": 8, "timeout": 2400},
+    "thorough": {"scale": 6, "shards": 8, "timeout": 2400},
     "rule": "each case is a history of 4-30 steps (in a synctest bubble, so nothing times out) against a real Interface{pki, firewall}: "
             "packets of 1-4 flows (+ a neighbouring tuple) in both directions, interleaved with Interface.reloadFirewall after "
             "config.ReloadConfigString of generated YAML: identical text, non-rule settings only (conntrack timeouts, "
